@@ -204,7 +204,7 @@ def check_lib_cases(ctx, cases, stats, heavy=False):
             stats["multi_line_cases"] += 1
             # the summary printer counts pattern matches, not lines, in multi-line mode: not modelled
             mvx = parse_val(mout) if mout.startswith("(") else None
-            same = mvx is not None and len(mvx) == len(cv) and all(x == y for i, (x, y) in enumerate(zip(mvx, cv)) if i != 3)
+            same = mvx is not None and len(mvx) == len(cv) and all(x == y for i, (x, y) in enumerate(zip(mvx, cv)) if i not in (3, 6))
         else:
             same = mout == cout
         # order of the protocol: begin first; a notified offset is also handed to finish
@@ -216,13 +216,13 @@ def check_lib_cases(ctx, cases, stats, heavy=False):
             which = "?"
             if mv is not None and len(mv) == len(cv):
                 names = ["events", "outcome", "standard output", "count output", "files-with-matches output",
-                         "files-without-match output"]
+                         "files-without-match output", "count --include-zero output"]
                 which = ", ".join(n for n, x, y in zip(names, mv, cv) if x != y)
             ctx.violation("binary detection: model and code disagree on " + which,
                           dict(kind=1401, case=c, code_line=cl, model_line=ml, model=mout, code=cout), nfi=True)
         # ---- property oracles on the code's answers
         std_out = bz(cv[2])
-        outs = [std_out] + [bz(x) for x in cv[3:6]]
+        outs = [std_out] + [bz(x) for x in cv[3:7]]
         convert_noop = c["mode"] == 2 and b == 10
         if c["mode"] != 0 and not convert_noop:
             # (a) no detected byte in a delivered line (slice+convert: before the notification)
@@ -239,6 +239,14 @@ def check_lib_cases(ctx, cases, stats, heavy=False):
                 std_out = outs[0]
             if b == 0 and any(b"\x00" in o for o in outs):
                 ctx.violation("NUL byte in printer output without text mode", dict(kind=1401, case=c, line=cl, outs=repr(outs)))
+            # (b2) a file searched in quit mode in which binary data was notified is dropped by every summary mode
+            #      (count, count --include-zero, files-without-match; files-with-matches may have quit at the
+            #      first match before the byte was seen: it never receives the notification then)
+            if (c["mode"] == 1 and binev and c["stop"] is None and c["bin_reply"] and c["max_matches"] is None
+                    and cv[1] == 0 and any(outs[i] for i in (1, 3, 4))):
+                ctx.violation("quit mode: a binary file is reported by a summary mode instead of being dropped",
+                              dict(kind=1401, case=c, line=cl, count=repr(outs[1]), files_without_match=repr(outs[3]),
+                                   count_include_zero=repr(outs[4])))
             # (c) notice / warning exactly when the property says (plain sink behaviour only)
             if c["stop"] is None and c["bin_reply"] and c["max_matches"] is None and cv[1] == 0 and b == 0:
                 warn = b"WARNING: stopped searching binary file after match" in std_out
@@ -394,10 +402,10 @@ def run_rg(args, cwd, stdin_path=None):
 
 
 ML_PATTERNS = {"ml_nl": "\\n", "ml_anb": "a\\nb", "ml_dot": "(?s)a.b"}
-OUTMODES = ["std", "std", "count", "lwm", "lwo", "passthru", "A1", "B1", "C2", "json", "only", "replace", "multiline",
+OUTMODES = ["std", "std", "count", "lwm", "lwo", "lwo", "count_iz", "cm_iz", "passthru", "A1", "B1", "C2", "json", "only", "replace", "multiline",
             "ml_nl", "ml_anb", "ml_dot",
             "vimgrep", "stats"]
-MODELLED = {"std": 2, "count": 3, "lwm": 4, "lwo": 5, "passthru": 2}
+MODELLED = {"std": 2, "count": 3, "lwm": 4, "lwo": 5, "passthru": 2, "count_iz": 6}
 
 
 def straddle_files(cap):
@@ -469,6 +477,7 @@ def cli_round(ctx, rng, cap, stats, big_ok, fixed=None, invocations=None):
             if null:
                 args.append("--null")
             args += {"std": [], "count": ["-c"], "lwm": ["-l"], "lwo": ["--files-without-match"],
+                     "count_iz": ["-c", "--include-zero"], "cm_iz": ["--count-matches", "--include-zero"],
                      "passthru": ["--passthru"], "A1": ["-A1"], "B1": ["-B1"], "C2": ["-C2"], "json": ["--json"],
                      "only": ["-o"], "replace": ["-r", "Z"], "multiline": ["-U"], "ml_nl": [], "ml_anb": [], "ml_dot": [], "vimgrep": ["--vimgrep"],
                      "stats": ["--stats"]}[om]
@@ -505,6 +514,19 @@ def cli_round(ctx, rng, cap, stats, big_ok, fixed=None, invocations=None):
             if mode != expect_mode:
                 ctx.violation("detection_for (model of from_low_args / is_explicit) disagrees with the property's table",
                               what, nfi=True)
+            if om in ("count", "count_iz", "cm_iz", "lwo") and mode == 1:
+                # a traversed file with a NUL in the examined portion is dropped: these modes search to the end, so the
+                # roll buffer always meets the NUL; a memory map only surely when it lies in the sniffed prefix
+                for n, pth in targets:
+                    content = files[n]
+                    nul = content.find(b"\x00")
+                    if nul < 0 or (mm and len(content) > 0 and nul >= cap):
+                        continue
+                    if pth + b":" in out or pth + b"\n" in out:
+                        w2 = dict(what)
+                        w2["file"] = n
+                        ctx.violation("a traversed binary file is reported (%s) instead of being dropped" % " ".join(args[-3:]), w2)
+                    stats["cli_summary_binary_dropped"] += 1
             if om in ML_PATTERNS and flag != 2:
                 # multi-line strategy: a NUL inside the sniffed prefix is seen before any match, so a traversed file
                 # is dropped and a named / --binary file yields at most the notice (exactly it when `\n` matches)
@@ -625,14 +647,15 @@ def run(ctx):
     cases = [gen_case(rng, default_cap) for _ in range(ctx.count(2500))]
     check_lib_cases(ctx, cases, stats)
     # fixed shapes around offset DEFAULT_BUFFER_CAPACITY: every mode x strategy, plain / count / -U / context
-    inv = [(0, False, True, "std"), (0, False, False, "std"), (0, True, True, "std"), (0, True, False, "std"),
-           (1, False, True, "std")] + [(0, False, True, "multiline"), (0, True, True, "multiline"), (1, False, True, "multiline"),
-                                  (0, False, True, "C2"), (0, True, True, "A1"), (0, False, True, "count"),
-                                  (0, True, True, "json"), (0, False, True, "only"), (0, True, False, "multiline"),
-                                  (0, True, True, "ml_nl"), (1, False, False, "ml_nl"), (0, False, True, "ml_dot"), (0, True, False, "ml_anb"),
-                                  (1, False, True, "ml_anb"), (0, False, False, "ml_nl"),
-                                  (0, False, False, "std", True), (0, True, True, "std", True), (1, False, True, "lwm", True),
-                                  (0, True, False, "A1", True)]
+    # (flag, explicit, mmap, output mode[, --null]); the modes with a model prediction (std, count_iz, lwo, lwm) cost a
+    # model run per big file, so each of them appears only where it adds a strategy / detection-mode combination
+    inv = [(0, False, True, "std"), (0, False, False, "std"), (0, True, True, "std"), (1, False, True, "std"),
+           (0, False, True, "multiline"), (0, True, True, "multiline"), (1, False, True, "multiline"), (0, True, False, "multiline"),
+           (0, False, True, "C2"), (0, True, True, "A1"), (0, True, True, "json"), (0, False, True, "only"),
+           (0, True, True, "ml_nl"), (1, False, False, "ml_nl"), (0, False, True, "ml_dot"), (0, True, False, "ml_anb"),
+           (1, False, True, "ml_anb"), (0, False, False, "ml_nl"),
+           (0, False, False, "lwo"), (0, False, True, "count_iz"), (0, False, False, "cm_iz"), (0, False, True, "cm_iz"),
+           (0, False, False, "std", True), (1, False, True, "lwm", True), (0, True, False, "A1", True)]
     cli_round(ctx, rng, default_cap, stats, big_ok=False, fixed=straddle_files(default_cap), invocations=inv)
     for r in range(ctx.count(8)):
         cli_round(ctx, rng, default_cap, stats, big_ok=(r % 3 == 0))
